@@ -584,3 +584,121 @@ func (e *Engine) lendObligations(fn *ssa.Function, fc *FuncContract, ctx *FnCtx)
 	}
 	return out
 }
+
+// ---- order obligations (C16): the result of an encoder must not depend on the map iteration order ----
+//
+// A range over a map is harmless when the loop only COLLECTS (stores into local variables / appends to a local
+// slice, calling nothing but pure formatting helpers) and the collected slice is sorted before it is used; every
+// other map range in an encoder must be over a map of at most one entry (an SMT obligation at the range).
+
+var collectPureCallees = map[string]bool{"escapeChars": true, "fmt.Sprintf": true, "fmt.Errorf": true, "fmt.Sprint": true, "strings.Index": true}
+
+func (e *Engine) isCollectThenSort(fn *ssa.Function, rng *ssa.Range) (bool, string) {
+	li := analyzeLoops(fn)
+	// the loop whose head holds the Next of this iterator
+	var head *ssa.BasicBlock
+	if refs := rng.Referrers(); refs != nil {
+		for _, r := range *refs {
+			if nx, ok := r.(*ssa.Next); ok {
+				head = nx.Block()
+			}
+		}
+	}
+	if head == nil || li.body[head] == nil {
+		return false, "iterator without loop"
+	}
+	collected := map[*ssa.Alloc]bool{}
+	rootAlloc := func(v ssa.Value) *ssa.Alloc {
+		for {
+			switch x := v.(type) {
+			case *ssa.Alloc:
+				return x
+			case *ssa.IndexAddr:
+				v = x.X
+			case *ssa.FieldAddr:
+				v = x.X
+			case *ssa.UnOp:
+				if x.Op != token.MUL {
+					return nil
+				}
+				v = x.X
+			default:
+				return nil
+			}
+		}
+	}
+	for b := range li.body[head] {
+		for _, in := range b.Instrs {
+			switch x := in.(type) {
+			case *ssa.Store:
+				a := rootAlloc(x.Addr)
+				if a == nil {
+					return false, "store to non-local memory inside the loop"
+				}
+				if _, isSlice := a.Type().(*types.Pointer).Elem().Underlying().(*types.Slice); isSlice {
+					collected[a] = true
+				}
+			case *ssa.MapUpdate:
+				return false, "map update inside the loop"
+			case *ssa.Call:
+				if _, isB := x.Call.Value.(*ssa.Builtin); isB {
+					continue
+				}
+				callee := x.Call.StaticCallee()
+				if callee == nil {
+					return false, "dynamic call inside the loop"
+				}
+				name := callee.Name()
+				if callee.Pkg != nil && callee.Pkg != fn.Pkg {
+					name = callee.Pkg.Pkg.Name() + "." + callee.Name()
+				}
+				if !collectPureCallees[name] {
+					return false, "call of " + name + " inside the loop"
+				}
+			}
+		}
+	}
+	if len(collected) == 0 {
+		return false, "nothing collected"
+	}
+	// every collected slice variable must be handed to sort.Sort / sort.Strings somewhere after the loop
+	for a := range collected {
+		sorted := false
+		for _, b := range fn.Blocks {
+			if li.body[head][b] || !head.Dominates(b) {
+				continue
+			}
+			for _, in := range b.Instrs {
+				c, ok := in.(*ssa.Call)
+				if !ok {
+					continue
+				}
+				callee := c.Call.StaticCallee()
+				if callee == nil || (callee.String() != "sort.Sort" && callee.String() != "sort.Strings") {
+					continue
+				}
+				// trace the argument back to the variable
+				v := c.Call.Args[0]
+				for v != nil {
+					switch x := v.(type) {
+					case *ssa.MakeInterface:
+						v = x.X
+					case *ssa.ChangeType:
+						v = x.X
+					case *ssa.UnOp:
+						if al, ok := x.X.(*ssa.Alloc); ok && al == a {
+							sorted = true
+						}
+						v = nil
+					default:
+						v = nil
+					}
+				}
+			}
+		}
+		if !sorted {
+			return false, "collected slice " + a.Comment + " is not sorted after the loop"
+		}
+	}
+	return true, "collect-then-sort"
+}
